@@ -1,5 +1,7 @@
 import Ivg.Spec.VM
 import Ivg.Model.Renderer
+import Ivg.Model.Arc
+import Ivg.Model.VecRaster
 /-!
 # The Renderer model refines the specification's virtual machine (C04, and the colour part of C16)
 -/
@@ -539,6 +541,46 @@ def started (z : Renderer α β) (f : Paint β) (x y : α) : Renderer α β :=
   { z with fill := f, disabled := false, prevSmoothType := 0,
            penX := z.absX x, penY := z.absY y, firstX := z.absX x, firstY := z.absY y }
 
+/-- the four reasons for which the machine prescribes no paint -/
+theorem paintChoice_none_causes (m : VM α) (H : Int) (adj : UInt8) :
+    m.paintChoice H adj = none ↔
+      (¬ (m.lod0 ≤ (Arith.ofInt H : α) ∧ (Arith.ofInt H : α) < m.lod1)) ∨
+      (premul (m.cReg (sub m.cSel adj)) ∧ (m.cReg (sub m.cSel adj)).a = 0) ∨
+      (¬ premul (m.cReg (sub m.cSel adj)) ∧ ¬ isGradient (m.cReg (sub m.cSel adj))) ∨
+      (isGradient (m.cReg (sub m.cSel adj)) ∧
+        ¬ (stopsValid (m.gradSpec (m.cReg (sub m.cSel adj))).stops ∧
+           2 ≤ (m.gradSpec (m.cReg (sub m.cSel adj))).stops.length)) := by
+  unfold VM.paintChoice
+  simp only
+  generalize m.cReg (sub m.cSel adj) = c
+  by_cases hl : m.lod0 ≤ (Arith.ofInt H : α) ∧ (Arith.ofInt H : α) < m.lod1
+  · rw [if_neg (not_not_intro hl)]
+    by_cases hp : premul c
+    · have hg := premul_not_gradient c hp
+      rw [if_pos hp]
+      by_cases ha : c.a = 0
+      · simp [ha, hp]
+      · simp [ha, hp, hl, hg]
+    · rw [if_neg hp]
+      by_cases hg : isGradient c
+      · rw [if_pos hg]
+        by_cases hv : stopsValid (m.gradSpec c).stops ∧ 2 ≤ (m.gradSpec c).stops.length
+        · rw [if_pos hv]; simp [hl, hp, hg, hv]
+        · rw [if_neg hv]; simp [hg, hv]
+      · rw [if_neg hg]; simp [hp, hg]
+  · rw [if_pos hl]; simp [hl]
+
+/-- a premultiplied register value is painted flat or not at all — never as a gradient -/
+theorem premul_paint_flat (m : VM α) (H : Int) (adj : UInt8) (h : premul (m.cReg (sub m.cSel adj))) :
+    m.paintChoice H adj = none ∨ m.paintChoice H adj = some (.flat (m.cReg (sub m.cSel adj))) := by
+  unfold VM.paintChoice
+  simp only
+  split
+  · exact Or.inl rfl
+  · split
+    · exact Or.inl rfl
+    · exact Or.inr rfl
+
 /-- 2a. When the machine prescribes a paint, `StartPath` resets the rasteriser to the rectangle's
     size, moves to the start point, leaves the Renderer enabled and stores exactly that paint. -/
 theorem startPath_enabled (z : Renderer α β) (adj : UInt8) (x y : α) (p : PaintSpec α)
@@ -557,6 +599,103 @@ theorem startPath_disabled (z : Renderer α β) (adj : UInt8) (x y : α)
     z.startPath adj x y = ({ z with fill := (choose z adj).1, disabled := true }, []) := by
   rw [startPath_eq, if_pos ((paintChoice_none_iff z adj).mp h)]
 
+
+/-- 2. `StartPath` follows the machine's choice: a prescribed paint ⇒ rasteriser reset, move to the
+    start point, paint stored, enabled; none ⇒ disabled and NO rasteriser call. -/
+theorem startPath_paint (z : Renderer α β) (adj : UInt8) (x y : α) :
+    match (absVM z).paintChoice z.r.dy adj with
+    | some p => z.startPath adj x y =
+        (started z (realise z p) x y, [.reset z.r.dx z.r.dy, .moveTo (z.absX x) (z.absY y)])
+    | none => z.startPath adj x y = ({ z with fill := (choose z adj).1, disabled := true }, []) := by
+  cases h : (absVM z).paintChoice z.r.dy adj with
+  | none => exact startPath_disabled z adj x y h
+  | some p => exact startPath_enabled z adj x y p h
+
+/-- the Renderer is enabled after `StartPath` exactly when the machine prescribes a paint -/
+theorem startPath_enabled_iff (z : Renderer α β) (adj : UInt8) (x y : α) :
+    (z.startPath adj x y).1.disabled = false ↔ ((absVM z).paintChoice z.r.dy adj).isSome = true := by
+  cases h : (absVM z).paintChoice z.r.dy adj with
+  | none => rw [startPath_disabled z adj x y h]; simp
+  | some p => rw [startPath_enabled z adj x y p h]; simp [started]
+
+/-! ## what a realised gradient contains, read back through `StopOffsets` / `StopColors` -/
+
+/-- `StopColors` narrows a 16-bit channel back to 8 bits -/
+def c8 (c : RGBA64) : RGBA :=
+  ⟨UInt8.ofNat (c.r / 256), UInt8.ofNat (c.g / 256), UInt8.ofNat (c.b / 256), UInt8.ofNat (c.a / 256)⟩
+
+theorem c8_rgba64Of (c : RGBA) : c8 (rgba64Of c) = c := by
+  have key : ∀ u : UInt8, UInt8.ofNat (u.toNat * 0x101 / 256) = u := by
+    intro u
+    apply UInt8.toNat_inj.mp
+    have hu := u.toNat_lt
+    have h : u.toNat * 0x101 = u.toNat + 256 * u.toNat := by omega
+    rw [UInt8.toNat_ofNat', h, Nat.add_mul_div_left _ _ (by decide : 0 < 256),
+      Nat.div_eq_of_lt (by omega), Nat.zero_add, Nat.mod_eq_of_lt (by omega)]
+  simp only [c8, rgba64Of, key]
+
+theorem appendRanges_offsets : ∀ (s0 s1 : Stop β) (rest : List (Stop β)),
+    (appendRanges (s0 :: s1 :: rest)).map (·.offset0) ++
+        [match (appendRanges (s0 :: s1 :: rest)).getLast? with | some r => r.offset1 | none => zeroB] =
+      (s0 :: s1 :: rest).map (·.offset) := by
+  intro s0 s1 rest
+  induction rest generalizing s0 s1 with
+  | nil => simp [appendRanges, makeRange]
+  | cons s2 rest ih =>
+    have h := ih s1 s2
+    rw [show appendRanges (s0 :: s1 :: s2 :: rest) = makeRange s0 s1 :: appendRanges (s1 :: s2 :: rest) from rfl]
+    have hne : appendRanges (s1 :: s2 :: rest) ≠ [] := by simp [appendRanges]
+    rw [List.getLast?_cons_of_ne_nil hne]
+    simp only [List.map_cons, List.cons_append] at h ⊢
+    rw [h]
+    rfl
+
+theorem appendRanges_colors : ∀ (s0 s1 : Stop β) (rest : List (Stop β)),
+    (appendRanges (s0 :: s1 :: rest)).map (fun r => c8 r.c0) ++
+        [c8 (match (s0 :: s1 :: rest).getLast? with | some s => s.color | none => ⟨0, 0, 0, 0⟩)] =
+      (s0 :: s1 :: rest).map (fun s => c8 s.color) := by
+  intro s0 s1 rest
+  induction rest generalizing s0 s1 with
+  | nil => simp [appendRanges, makeRange]
+  | cons s2 rest ih =>
+    have h := ih s1 s2
+    rw [show appendRanges (s0 :: s1 :: s2 :: rest) = makeRange s0 s1 :: appendRanges (s1 :: s2 :: rest) from rfl]
+    rw [show (s0 :: s1 :: s2 :: rest).getLast? = (s1 :: s2 :: rest).getLast? from
+      List.getLast?_cons_of_ne_nil (by simp)]
+    simp only [List.map_cons, List.cons_append] at h ⊢
+    rw [h]
+    rfl
+
+theorem init_stopOffsets (sh sp : UInt8) (m : Aff3 β) (s0 s1 : Stop β) (rest : List (Stop β)) :
+    (Gradient.init sh sp m (s0 :: s1 :: rest)).1.stopOffsets = (s0 :: s1 :: rest).map (·.offset) := by
+  have h := appendRanges_offsets s0 s1 rest
+  simp only [Gradient.stopOffsets, Gradient.init]
+  rw [show appendRanges (s0 :: s1 :: rest) = makeRange s0 s1 :: appendRanges (s1 :: rest) from rfl] at h ⊢
+  exact h
+
+theorem init_stopColors (sh sp : UInt8) (m : Aff3 β) (s0 s1 : Stop β) (rest : List (Stop β)) :
+    (Gradient.init sh sp m (s0 :: s1 :: rest)).1.stopColors = (s0 :: s1 :: rest).map (fun s => c8 s.color) := by
+  have h := appendRanges_colors s0 s1 rest
+  simp only [Gradient.stopColors, Gradient.init]
+  rw [show appendRanges (s0 :: s1 :: rest) = makeRange s0 s1 :: appendRanges (s1 :: rest) from rfl] at h ⊢
+  exact h
+
+/-- A realised gradient paint, read back with the Renderer's own accessors (`Gradient.StopOffsets`,
+    `Gradient.StopColors`): same shape and spread, the stop offsets are the (widened) `NREG` values and
+    the stop colours are the `CREG` values the machine prescribes. -/
+theorem realise_gradient (z : Renderer α β) (g : GradSpec α) (h2 : 2 ≤ g.stops.length) :
+    ∃ G : Gradient β, realise z (.gradient g) = .gradient G ∧ G.shape = g.shape ∧ G.spread = g.spread ∧
+      G.pix2Grad = pix2Grad z g ∧
+      G.stopOffsets = g.stops.map (fun s => (Wide.widen s.1 : β)) ∧ G.stopColors = g.stops.map (·.2) := by
+  refine ⟨_, rfl, rfl, rfl, rfl, ?_, ?_⟩
+  · match hs : g.stops, h2 with
+    | s0 :: s1 :: rest, _ =>
+      simp only [List.map_cons, init_stopOffsets, List.map_map]
+      rfl
+  · match hs : g.stops, h2 with
+    | s0 :: s1 :: rest, _ =>
+      have hc : ∀ s : α × RGBA, c8 (stopOf (β := β) s).color = s.2 := fun s => c8_rgba64Of s.2
+      simp only [List.map_cons, init_stopColors, List.map_map, Function.comp_def, hc]
 
 /-! ## frames: what the drawing calls leave alone -/
 
@@ -885,6 +1024,29 @@ theorem render_refines_vm (arc : ArcFn α β) (hArc : ArcPure arc) (posInf : α)
   rw [h1, List.nil_append, body_refines arc hArc posInf body hb, abs_reset]
   rfl
 
+
+/-- a path that is never closed (the byte stream ends in drawing mode) is never drawn -/
+theorem open_path_no_draw (arc : ArcFn α β) (hArc : ArcPure arc) (posInf : α) (z : Renderer α β)
+    (adj : UInt8) (x y : α) (segs : List (Call α)) (hs : ∀ s ∈ segs, isSegment s = true) :
+    drawsOf (z.run arc posInf (.startPath adj x y :: segs)).2 = [] := by
+  rw [run_cons, drawsOf_append,
+    drawsOf_pathOps _ (segs_frame arc hArc posInf segs hs _).2.2, List.append_nil]
+  have hstep : z.step arc posInf (.startPath adj x y) = z.startPath adj x y := rfl
+  rw [hstep, startPath_eq]
+  split <;> rfl
+
+/-- Headline for a truncated graphic: `Reset`, a body, and a last path that is started but never
+    closed.  The draws are those of the body. -/
+theorem render_refines_vm_open (arc : ArcFn α β) (hArc : ArcPure arc) (posInf : α) (z0 : Renderer α β)
+    (vb : ViewBox α) (pal : Palette) (body : List (Call α)) (hb : Body body)
+    (adj : UInt8) (x y : α) (segs : List (Call α)) (hs : ∀ s ∈ segs, isSegment s = true) :
+    drawsOf (z0.run arc posInf (.reset vb pal :: (body ++ .startPath adj x y :: segs))).2 =
+      (VM.paints posInf z0.r.dy (VM.init posInf pal) body).map
+        (fun p => (z0.r, realise (z0.reset posInf vb pal) p)) := by
+  have hl : (Call.reset vb pal :: (body ++ .startPath adj x y :: segs)) =
+      (Call.reset vb pal :: body) ++ (.startPath adj x y :: segs) := by simp
+  rw [hl, run_append, drawsOf_append, render_refines_vm arc hArc posInf z0 vb pal body hb,
+    open_path_no_draw arc hArc posInf _ adj x y segs hs, List.append_nil]
 
 /-! ## complete shape of the rasteriser traffic -/
 
@@ -1241,5 +1403,160 @@ theorem origin_independent (arc : ArcFn α β) (hArc : ArcRectIndep arc) (hPure 
   have hr : (z0.setRasterizer r).r = Rect.norm r := rfl
   rw [hset, run_setR arc hArc hPure posInf _ p (z0.setRasterizer r) (by rw [hr]; exact hx)
     (by rw [hr]; exact hy)]
+
+
+/-! ## the hypotheses on the arc parameter hold for the model of `AbsArcTo` -/
+
+section ArcF32
+open Ivg.Num
+
+theorem arcSegments_pure (z : Renderer F32 F64) (cx cy t1 dt rx ry c s : F64) (n : Int) :
+    ∀ (fuel : Nat) (i : Int), ∀ op ∈ arcSegments z cx cy t1 dt rx ry c s n fuel i, isPathOp op = true := by
+  intro fuel
+  induction fuel with
+  | zero => intro i op h; simp [arcSegments] at h
+  | succ k ih =>
+    intro i op h
+    unfold arcSegments at h
+    split at h
+    · rcases List.mem_cons.mp h with rfl | h
+      · rfl
+      · exact ih _ _ h
+    · cases h
+
+/-- `AbsArcTo` makes only `LineTo`/`CubeTo` calls -/
+theorem arcF32_pure : ArcPure arcF32 := by
+  intro z rx ry rot la sw x y op h
+  unfold arcF32 at h
+  dsimp only at h
+  split at h
+  · rcases List.mem_singleton.mp h with rfl; rfl
+  · exact arcSegments_pure _ _ _ _ _ _ _ _ _ _ _ _ _ h
+
+theorem arcSegment_setR (z : Renderer F32 F64) (r' : Rect) (cx cy t1 t2 rx ry c s : F64) :
+    arcSegment { z with r := r' } cx cy t1 t2 rx ry c s = arcSegment z cx cy t1 t2 rx ry c s := rfl
+
+theorem arcSegments_setR (z : Renderer F32 F64) (r' : Rect) (cx cy t1 dt rx ry c s : F64) (n : Int) :
+    ∀ (fuel : Nat) (i : Int), arcSegments { z with r := r' } cx cy t1 dt rx ry c s n fuel i =
+      arcSegments z cx cy t1 dt rx ry c s n fuel i := by
+  intro fuel
+  induction fuel with
+  | zero => intro i; rfl
+  | succ k ih =>
+    intro i
+    unfold arcSegments
+    rw [arcSegment_setR, ih]
+
+/-- `AbsArcTo` does not look at the destination rectangle -/
+theorem arcF32_rectIndep : ArcRectIndep arcF32 := by
+  intro z r' rx ry rot la sw x y
+  unfold arcF32
+  simp only [arcSegments_setR, Renderer.absX, Renderer.absY, Renderer.unabsX, Renderer.unabsY]
+  rfl
+
+end ArcF32
+
+
+/-! ## C16: the configured compositing operator applies to the first drawn path only -/
+
+section VecRaster
+open Ivg.VecRaster
+
+theorem vec_run_over (cs : List RCall) : ∀ z : Rasterizer, z.drawOp = .over →
+    z.run cs = List.replicate (cs.count .draw) .over := by
+  induction cs with
+  | nil => intro z _; rfl
+  | cons c cs ih =>
+    intro z hz
+    cases c
+    · exact ih z.reset hz
+    · exact ih z hz
+    · have h1 : z.run (.draw :: cs) = z.drawOp :: (z.draw).1.run cs := rfl
+      rw [h1, ih _ rfl, hz]
+      simp [List.replicate_succ]
+
+/-- Over any sequence of rasteriser calls — resets, path operations, draws — starting with
+    `DrawOp = op`, the operators used by the successive draws are `op, Over, Over, …`. -/
+theorem drawop_first_only (z : Rasterizer) (cs : List RCall) :
+    z.run cs = match cs.count .draw with
+      | 0 => []
+      | n + 1 => z.drawOp :: List.replicate n .over := by
+  induction cs generalizing z with
+  | nil => rfl
+  | cons c cs ih =>
+    cases c
+    · exact ih z.reset
+    · exact ih z
+    · have h1 : z.run (.draw :: cs) = z.drawOp :: (z.draw).1.run cs := rfl
+      rw [h1, vec_run_over cs _ rfl]
+      simp
+
+/-- the `raster.Rasterizer` call a Renderer operation is -/
+def toRCall : RasterOp α β → RCall
+  | .reset .. => .reset
+  | .draw .. => .draw
+  | _ => .pathOp
+
+theorem count_draw (ops : List (RasterOp α β)) :
+    (ops.map toRCall).count .draw = (drawsOf ops).length := by
+  induction ops with
+  | nil => rfl
+  | cons op ops ih => cases op <;> simp [toRCall, drawsOf, ih]
+
+end VecRaster
+
+
+/-! ## concrete instances used by the non-vacuity examples of the property files -/
+
+namespace Ex
+open Ivg.Num
+
+/-- float32 +Inf -/
+def posInf : F32 := ⟨0x7f800000⟩
+def n (i : Int) : F32 := F32.ofInt i
+
+/-- a fresh Renderer pointed at a 24×24 rectangle at offset (10, 20), after `Reset` with the default
+    metadata -/
+def z24 : Renderer F32 F64 :=
+  ((Renderer.zero (α := F32) (β := F64)).setRasterizer ⟨10, 20, 34, 44⟩).reset posInf defaultViewBox defaultPalette
+
+/-- a body with: a two-stop linear gradient path; a fully transparent path; a path outside the LOD
+    range; a flat path painted through a palette index, a register reference and a blend -/
+def body : List (Call F32) :=
+  [ .setCSel 10, .setCReg 0 true (Color.rgbaColor ⟨0xff, 0, 0, 0xff⟩),
+    .setCReg 0 true (Color.rgbaColor ⟨0, 0, 0xff, 0xff⟩),
+    .setNSel 10, .setNReg 0 true (n 0), .setNReg 0 true (n 1),
+    .setCSel 0, .setCReg 0 false (Color.rgbaColor (encodeGradient 10 10 0 1 2)),
+    .startPath 0 (n 0) (n 0), .d2 .L (n 1) (n 1), .d1 .H (n 3), .closeEnd,
+    .setCReg 1 false (Color.rgbaColor ⟨0, 0, 0, 0⟩),
+    .startPath 1 (n 0) (n 0), .d2 .L (n 1) (n 1), .closeEnd,
+    .setLOD (n 32) (n 64),
+    .startPath 2 (n 0) (n 0), .d4 .Q (n 1) (n 1) (n 2) (n 0), .closeEnd,
+    .setLOD (n 0) posInf,
+    .setCReg 3 false (Color.paletteIndexColor 5), .setCReg 4 false (Color.cRegColor 61),
+    .setCReg 5 false (Color.blendColor 0x40 0x7f 0x85),
+    .startPath 5 (n 0) (n 0), .arc false (n 1) (n 1) (n 0) true false (n 2) (n 2), .closeEnd ]
+
+theorem body_ok : Body body := by
+  refine .styling _ _ rfl <| .styling _ _ rfl <| .styling _ _ rfl <| .styling _ _ rfl <|
+    .styling _ _ rfl <| .styling _ _ rfl <| .styling _ _ rfl <| .styling _ _ rfl <|
+    .path 0 _ _ [_, _] _ (by decide) <| .styling _ _ rfl <|
+    .path 1 _ _ [_] _ (by decide) <| .styling _ _ rfl <|
+    .path 2 _ _ [_] _ (by decide) <| .styling _ _ rfl <| .styling _ _ rfl <| .styling _ _ rfl <|
+    .styling _ _ rfl <| .path 5 _ _ [_] _ (by decide) .nil
+
+/-- what the machine prescribes for the four paths of `body` at height 24: a 2-stop gradient, nothing,
+    nothing, a flat colour -/
+def kinds : List (Option (PaintSpec F32)) → List Nat
+  | [] => []
+  | some (.gradient g) :: r => g.stops.length :: kinds r
+  | some (.flat c) :: r => (1000 + c.a.toNat) :: kinds r
+  | none :: r => 0 :: kinds r
+
+set_option maxRecDepth 100000 in
+theorem body_kinds : kinds (VM.choices posInf 24 (VM.init posInf defaultPalette) body) = [2, 0, 0, 1064] := by
+  decide +kernel
+
+end Ex
 
 end Ivg.Lemmas.RendererVM
